@@ -6,6 +6,7 @@ CONSTANTS
   MaxOffer = 2
   MaxLocal = 1
   AllowSelfStop = FALSE
+  ExactOffers = TRUE
   EmitScripts = TRUE
 CONSTRAINT Bound
 INVARIANT Emit
